@@ -98,6 +98,8 @@ class Prop:
             return res, None, None
         try:
             self.oracle(case, impl_obs, res)
+            if hasattr(self, 'post_oracle'):
+                self.post_oracle(case, impl_obs, res)
         except Exception:
             res.error = 'oracle crashed: ' + traceback.format_exc()[-1500:]
             return res, impl_obs, None
